@@ -27,7 +27,7 @@ theorem C19_site_checked {s : SpSite} (h : s ∈ spaceRules) : siteOk s = true :
     outcome `ρ` of the conditions that are not about options (and whatever `ω` an unparsed expression would be), if the
     option guards around the site hold then the value returned is permitted by the logged name. -/
 theorem C19_rule_returns_named_option :
-    ∀ s ∈ spaceRules, ∀ (σ : Val) (ρ : String → Bool) (ω : String → IARF),
+    ∀ s ∈ spaceRules, ∀ (σ : SpVal) (ρ : String → Bool) (ω : String → IARF),
       SpCond.holds σ ρ s.guards = true → eval σ ρ ω s.ret ∈ Allowed s σ := by
   intro s hs σ ρ ω hg
   have h := C19_site_checked hs
@@ -48,7 +48,7 @@ example : (spaceRules.any fun s => s.logged == "sp_arith" && Allowed s (fun _ =>
     configured value of THAT option -/
 theorem C19_regular_site_returns_its_option :
     ∀ s ∈ spaceRules, ∀ i, s.ln = .opt i → optKind i = .iarf → exceptionOf s.ln = none →
-      ∀ (σ : Val) (ρ : String → Bool) (ω : String → IARF), SpCond.holds σ ρ s.guards = true →
+      ∀ (σ : SpVal) (ρ : String → Bool) (ω : String → IARF), SpCond.holds σ ρ s.guards = true →
         eval σ ρ ω s.ret = σ i := by
   intro s hs i hln hk hex σ ρ ω hg
   have h := C19_rule_returns_named_option s hs σ ρ ω hg
@@ -65,7 +65,7 @@ example : (spaceRules.any fun s => match s.ln with
 /-- `"x | ADD"` sites return the configured value of `x` or'ed with ADD -/
 theorem C19_orAdd_site :
     ∀ s ∈ spaceRules, ∀ i, s.ln = .optOrAdd i → optKind i = .iarf →
-      ∀ (σ : Val) (ρ : String → Bool) (ω : String → IARF), SpCond.holds σ ρ s.guards = true →
+      ∀ (σ : SpVal) (ρ : String → Bool) (ω : String → IARF), SpCond.holds σ ρ s.guards = true →
         eval σ ρ ω s.ret = IARF.bor (σ i) .add := by
   intro s hs i hln hk σ ρ ω hg
   have h := C19_rule_returns_named_option s hs σ ρ ω hg
@@ -82,7 +82,7 @@ example : (spaceRules.any fun s => match s.ln with
 /-- sites whose log text carries a constant return that constant -/
 theorem C19_constant_site :
     ∀ s ∈ spaceRules, ∀ pre v post, s.ln = .textConst pre v post →
-      ∀ (σ : Val) (ρ : String → Bool) (ω : String → IARF), SpCond.holds σ ρ s.guards = true →
+      ∀ (σ : SpVal) (ρ : String → Bool) (ω : String → IARF), SpCond.holds σ ρ s.guards = true →
         eval σ ρ ω s.ret = v := by
   intro s hs pre v post hln σ ρ ω hg
   have h := C19_rule_returns_named_option s hs σ ρ ω hg
